@@ -107,3 +107,43 @@ Theorem C14_error_origins : forall stop m b src,
   end.
 Proof. exact error_origins. Qed.
 Print Assumptions C14_error_origins.
+
+Require Import Regex Grammar RefSem Stub DeliveryInst ErrorPos ErrorPosInst ErrorPosStub.
+
+(* "Rejected exactly when some line (or the end of file) cannot continue a sentence of the grammar ... reported at its own
+   line", at the level of line kinds (the interpreter over the regenerated table with the kind-level matcher; the real
+   matcher is tied to it by correspondence): in stop-at-first-error mode the error is raised on the token of the first
+   line i such that the lines before it can still be continued to a sentence of gherkin.berp (`runR G`, the reference
+   recogniser) while the lines up to and including it cannot, whatever follows.  The look-aheads answer from lines the
+   machine has not reached, so the walk on the real document and on a hypothetical continuation may take different
+   branches; ErrorPos.v shows that they can differ only while blank lines, comments and tag lines follow a tag line, where
+   nothing is ever unexpected (closure certificate over the regenerated table), and that whether a line is unexpected
+   never depends on a look-ahead (every guarded test is followed by an unguarded one for the same kinds).  The token
+   carries its line number: `stub_all w` numbers the lines from 1 and ends with the end-of-file token. *)
+Theorem C14_first_error_where_the_sentence_breaks : forall w, Forall (fun k => k <> KEOF) w ->
+  match Stub.run true w with
+  | Raise1 err _ =>
+    exists i, fst err = nth i (stub_all w) (KEOF, 0)
+              /\ (forall u, runR G (firstn (S i) (w ++ [KEOF]) ++ u) = false)
+              /\ (exists u, runR G (firstn i w ++ u) = true)
+  | Ok _ _ => True
+  | _ => False
+  end.
+Proof. exact stub_first_error_exact. Qed.
+Print Assumptions C14_first_error_where_the_sentence_breaks.
+
+(* the position itself, as a function of the kinds: neither early nor late *)
+Theorem C14_first_stuck : forall w i, first_stuck w = Some i ->
+  (forall u, runR G (firstn (S i) (w ++ [KEOF]) ++ u) = false) /\ (exists u, runR G (firstn i w ++ u) = true).
+Proof. intros w i D. split; [exact (first_stuck_not_early w i D) | exact (first_stuck_not_late w i D)]. Qed.
+Print Assumptions C14_first_stuck.
+
+Example C14_first_stuck_sample :
+  first_stuck [KFeatureLine; KScenarioLine; KStepLine; KTagLine; KComment; KEmpty; KOther; KScenarioLine] = Some 6
+  /\ first_stuck [KFeatureLine; KScenarioLine; KStepLine; KTagLine; KComment; KEmpty; KTagLine] = Some 7
+  /\ first_stuck [KFeatureLine; KScenarioLine; KStepLine; KTagLine; KComment; KScenarioLine] = None
+  /\ match Stub.run true [KFeatureLine; KScenarioLine; KStepLine; KTagLine; KComment; KEmpty; KOther; KScenarioLine] with
+     | Raise1 err _ => fst err = (KOther, 7)
+     | _ => False
+     end.
+Proof. vm_compute. repeat split. Qed.
